@@ -299,6 +299,50 @@ theorem nextseq_idempotent (seq quals : Bytes) (cutoff base : Int) (hl : seq.len
 
 example : trim3 10 33 [73,73,35,73,35,35] = 4 ∧ trim3 10 33 ([73,73,35,73,35,35].take 4) = 4 := by decide
 
+theorem pre_drop (d : List Int) (s j : Nat) : pre (d.drop s) j = pre d (s + j) - pre d s := by
+  unfold pre
+  have h : d.take (s + j) = d.take s ++ (d.drop s).take j := by
+    rw [List.take_add]
+  rw [h, List.sum_append]; omega
+
+/-- generic idempotence of the 5' scan: on what is left after removing the best prefix, the scan removes nothing -/
+theorem front_idempotent (d : List Int) : bestPrefix (d.drop (bestPrefix d)) = 0 := by
+  obtain ⟨h1, h2, h3, h4⟩ := bestPrefix_spec d
+  obtain ⟨g1, g2, g3, g4⟩ := bestPrefix_spec (d.drop (bestPrefix d))
+  generalize hs : bestPrefix d = s at *
+  generalize hs' : bestPrefix (d.drop s) = s' at *
+  by_cases h0 : s' = 0
+  · exact h0
+  · exfalso
+    have hpos := g4 0 (by omega)
+    rw [pre_drop, pre_drop] at hpos
+    simp only [Nat.add_zero] at hpos
+    have hs0 : 0 ≤ pre d s := by
+      by_cases e : s = 0
+      · subst e; simp
+      · exact h2 s (by omega) (Nat.le_refl _)
+    have hr : Reach d (s + s') := by
+      intro t ht1 ht2
+      by_cases hts : t ≤ s
+      · exact h2 t ht1 hts
+      · have := g2 (t - s) (by omega) (by omega)
+        rw [pre_drop] at this
+        have e : s + (t - s) = t := by omega
+        rw [e] at this; omega
+    have hlen : s + s' ≤ d.length := by
+      simp only [List.length_drop] at g1; omega
+    have := h3 (s + s') hlen hr
+    omega
+
+/-- **5' quality trimming is idempotent**: after `-q cutoff,0`-style 5' trimming, trimming the remaining read again at the 5' end with the same
+    cutoff removes nothing — for every quality string, cutoff and base. -/
+theorem trim5_idempotent (cutoff base : Int) (quals : Bytes) :
+    trim5 cutoff base (quals.drop (trim5 cutoff base quals)) = 0 := by
+  have := front_idempotent (quals.map (dval cutoff base))
+  simpa [trim5, List.map_drop] using this
+
+example : trim5 10 33 [35,35,73,35,73,73] = 2 ∧ trim5 10 33 ([35,35,73,35,73,73].drop 2) = 0 := by decide
+
 /-! Non-vacuity: concrete runs. `"IIII#I##"` (cutoff 10, base 33): qualities 40,40,40,40,2,40,2,2. -/
 example : qualityTrimIndex [73,73,73,73,35,73,35,35] 10 10 33 = (0, 6) := by decide
 example : qualityTrimIndex [35,35,73,73] 10 10 33 = (2, 4) := by decide
